@@ -287,3 +287,24 @@ func main() {
 	}
 	os.Exit(status)
 }
+
+// constStrings: the package-level string constants of the package being translated (set by the generators that
+// accept a named constant where a string literal is expected)
+var constStrings = map[string]string{}
+
+// strLit: a string literal, or an identifier that names a package-level string constant
+func strLit(e ast.Expr) (string, bool) {
+	switch x := e.(type) {
+	case *ast.BasicLit:
+		if x.Kind == token.STRING {
+			return unquote(x.Value), true
+		}
+	case *ast.Ident:
+		if v, ok := constStrings[x.Name]; ok {
+			return v, true
+		}
+	case *ast.ParenExpr:
+		return strLit(x.X)
+	}
+	return "", false
+}
